@@ -1,17 +1,142 @@
-(* C11 — IsPlanar decides planarity.  PARTIAL: what is proved here is about the SPECIFICATION
-   of planarity (no K5 and no K3,3 minor) and about the executable oracle used by the
-   correspondence check.  NOT proved: that the Demoucron-Malgrange-Pertuiset procedure of
-   graph/planar.go returns the specification's answer, that it terminates, and that its two
-   panic branches are unreachable — those are explored by the harness only. *)
+(* C11 — IsPlanar decides planarity.  PARTIAL (level "other"): the theorems of this file are
+   about the SPECIFICATION of planarity, [planar G := no K5 minor and no K3,3 minor] with
+   minors given by branch sets (Planar/Spec.v), about the executable oracle extracted for the
+   correspondence check (Planar/Model.v), and about the shortcut branches of an executable
+   model of the procedure of graph/planar.go (Planar/DmpModel.v).
+
+   NOT proved, explored by the harness only: that the Demoucron-Malgrange-Pertuiset procedure
+   (code or model) returns the specification's answer, that it terminates (the model runs on
+   fuel and reports OutOfFuel as a distinct observation), and that its two panic branches are
+   unreachable.  Also not proved: that the minor characterisation coincides with
+   embeddability in the plane (Wagner/Kuratowski), and the Euler bound m <= 3n-6 for graphs
+   without K5 / K3,3 minor (so the `m > 3n-6 => false` shortcut is tied to the code by
+   correspondence and to the specification by exploration only). *)
 From Coq Require Import List Arith Bool.
-From Mamba Require Import Planar.Model Planar.Spec Planar.SpecLemmas.
+From Mamba Require Import Planar.Model Planar.Spec Planar.SpecLemmas Planar.Invariance
+  Planar.Constructors Planar.ExecProofs Planar.CertProofs.
 Import ListNotations.
 
-(* the n < 5 shortcut of IsPlanar agrees with the specification *)
+Definition K4 : graph := mkG 4 [(0,1);(0,2);(0,3);(1,2);(1,3);(2,3)].
+Definition C4 : graph := mkG 4 [(0,1);(1,2);(2,3);(3,0)].
+
+(* ---- the n < 5 shortcut of IsPlanar agrees with the specification *)
 Theorem C11_small_partial : forall G, gn G < 5 -> planar G.
 Proof. exact planar_small. Qed.
 Print Assumptions C11_small_partial.
 
-Example C11_small_nonvacuous : gn (mkG 4 [(0,1);(0,2);(0,3);(1,2);(1,3);(2,3)]) < 5 /\
-  planar_b (mkG 4 [(0,1);(0,2);(0,3);(1,2);(1,3);(2,3)]) = true /\ planar_b K5 = false /\ planar_b K33 = false.
+Example C11_small_nonvacuous : gn K4 < 5 /\
+  planar_b K4 = true /\ planar_b K5 = false /\ planar_b K33 = false.
 Proof. repeat split; vm_compute; auto. Qed.
+
+(* ---- the oracle of the correspondence check is a decision procedure for the specification *)
+Theorem C11_oracle_correct : forall G,
+  (k5_minor_b G = true <-> has_minor K5 G) /\
+  (k33_minor_b G = true <-> has_minor K33 G) /\
+  (planar_b G = true <-> planar G).
+Proof.
+  intros G. split; [apply k5_minor_b_correct|]. split; [apply k33_minor_b_correct|apply planar_b_correct].
+Qed.
+Print Assumptions C11_oracle_correct.
+
+Example C11_oracle_nonvacuous : ~ planar K5 /\ ~ planar K33 /\ planar K4 /\
+  planar (mkG 6 [(0,1);(0,2);(0,3);(0,4);(1,2);(1,3);(1,4);(2,3);(2,4);(3,5);(5,0)]) /\
+  ~ planar (subdivide K5 3 4).
+Proof.
+  repeat split; first [apply planar_b_false | apply planar_b_correct]; vm_compute; reflexivity.
+Qed.
+
+(* a certificate (one branch set per vertex of K5 / K3,3) accepted by the checker proves
+   non-planarity; used for the non-planar-by-construction families, at any size *)
+Theorem C11_certificate_sound : forall H G Bs, check_model_b H G Bs = true ->
+  is_model H G (fun h v => memb v (nth h Bs [])) /\
+  ((H = K5 \/ H = K33) -> ~ planar G).
+Proof.
+  intros H G Bs C. split; [apply check_model_sound; exact C|].
+  intros [-> | ->]; apply (check_model_nonplanar G Bs); auto.
+Qed.
+Print Assumptions C11_certificate_sound.
+
+Example C11_certificate_nonvacuous :
+  check_model_b K5 (subdivide K5 3 4) [[0];[1];[2];[3;5];[4]] = true /\
+  check_model_b K5 (subdivide K5 3 4) [[0];[1];[2];[3];[4]] = false.
+Proof. split; vm_compute; reflexivity. Qed.
+
+(* ---- the specification is invariant under relabelling *)
+Theorem C11_spec_relabel : forall G G', iso G G' -> (planar G <-> planar G').
+Proof. exact planar_iso. Qed.
+Print Assumptions C11_spec_relabel.
+
+Theorem C11_spec_relabel_concrete : forall G p q, wf G -> perm_on (gn G) p q ->
+  (planar G <-> planar (relabel G p)).
+Proof. intros G p q W P. apply planar_iso. apply (relabel_iso G p q W P). Qed.
+Print Assumptions C11_spec_relabel_concrete.
+
+Example C11_spec_relabel_nonvacuous :
+  let p := fun v => match v with 0 => 3 | 1 => 0 | 2 => 1 | 3 => 2 | _ => v end in
+  let q := fun v => match v with 3 => 0 | 0 => 1 | 1 => 2 | 2 => 3 | _ => v end in
+  perm_on 5 p q /\ relabel K5 p = mkG 5 [(3,0);(3,1);(3,2);(3,4);(0,1);(0,2);(0,4);(1,2);(1,4);(2,4)].
+Proof.
+  split; [|reflexivity]. split; intros v Hv; do 5 (destruct v as [|v]; [simpl; auto with arith|]);
+    exfalso; repeat apply Nat.succ_lt_mono in Hv; inversion Hv.
+Qed.
+
+(* ---- monotone under subgraphs: every graph that embeds into a planar graph is planar
+   (edge deletion, vertex deletion and arbitrary subgraphs are instances) *)
+Theorem C11_spec_subgraph : forall G G', embeds G G' -> planar G' -> planar G.
+Proof. exact planar_embeds. Qed.
+Print Assumptions C11_spec_subgraph.
+
+Theorem C11_spec_subgraph_concrete : forall G,
+  (forall a b, planar G -> planar (del_edge G a b)) /\
+  (forall a b, planar (add_edge G a b) -> planar G) /\
+  (forall k, k < gn G -> planar G -> planar (del_vertex G k)) /\
+  (forall G0, subgraph G0 G -> planar G -> planar G0).
+Proof.
+  intros G. split; [|split; [|split]].
+  - intros a b. apply planar_embeds, subgraph_embeds, del_edge_subgraph.
+  - intros a b. apply planar_embeds, subgraph_embeds, add_edge_subgraph.
+  - intros k Lk. apply planar_embeds, del_vertex_embeds, Lk.
+  - intros G0 S. apply planar_embeds, subgraph_embeds, S.
+Qed.
+Print Assumptions C11_spec_subgraph_concrete.
+
+Example C11_spec_subgraph_nonvacuous :
+  planar_b (del_edge K5 3 4) = true /\ planar_b (del_vertex K5 2) = true /\
+  del_vertex K5 2 = mkG 4 [(0,1);(0,2);(0,3);(1,2);(1,3);(2,3)] /\ planar_b K5 = false.
+Proof. repeat split; vm_compute; reflexivity. Qed.
+
+(* ---- invariant under adding an isolated vertex, a pendant vertex, subdividing an edge *)
+Theorem C11_spec_isolated : forall G G', adds_isolated G G' -> (planar G <-> planar G').
+Proof. exact planar_isolated. Qed.
+Print Assumptions C11_spec_isolated.
+
+Theorem C11_spec_pendant : forall G G' w, adds_pendant G G' w -> (planar G <-> planar G').
+Proof. exact planar_pendant. Qed.
+Print Assumptions C11_spec_pendant.
+
+Theorem C11_spec_subdivide : forall G G' a b, subdivides G G' a b -> (planar G <-> planar G').
+Proof. exact planar_subdivide. Qed.
+Print Assumptions C11_spec_subdivide.
+
+Theorem C11_spec_extend_concrete : forall G, wf G ->
+  (planar G <-> planar (add_isolated G)) /\
+  (forall w, w < gn G -> (planar G <-> planar (add_pendant G w))) /\
+  (forall a b, adj G a b = true -> (planar G <-> planar (subdivide G a b))).
+Proof.
+  intros G W. split; [|split].
+  - apply planar_isolated, add_isolated_spec, W.
+  - intros w Lw. apply (planar_pendant _ _ w), add_pendant_spec; assumption.
+  - intros a b A. apply (planar_subdivide _ _ a b), subdivide_spec; assumption.
+Qed.
+Print Assumptions C11_spec_extend_concrete.
+
+Example C11_spec_extend_nonvacuous :
+  (forall e, In e (ge K33) -> fst e <? gn K33 = true /\ snd e <? gn K33 = true) /\
+  adj K33 0 3 = true /\
+  subdivide K33 0 3 = mkG 7 [(0,6);(6,3);(0,4);(0,5);(1,3);(1,4);(1,5);(2,3);(2,4);(2,5)] /\
+  planar_b (subdivide K33 0 3) = false /\ planar_b (add_pendant K33 2) = false /\
+  planar_b (add_isolated K4) = true /\ planar_b (subdivide K4 0 1) = true.
+Proof.
+  split; [|repeat split; vm_compute; reflexivity].
+  intros e He. simpl in He. repeat (destruct He as [<-|He]; [split; reflexivity|]). destruct He.
+Qed.
